@@ -240,7 +240,18 @@ fn gen_case(rng: &mut Rng, id: usize) -> Case {
     let rename = if kind == "rename" || rng.chance(1, 8) {
         let mut m: Vec<(String, String)> = Vec::new();
         let mut used = HashSet::new();
+        // collision-heavy palette: several glyphs map to the same final name while other glyphs are
+        // literally called like the ".N" suffixes the de-duplication hands out (seed C06-1)
+        let dense = rng.chance(1, 2);
+        const DENSE: [&str; 7] = ["xy", "x-y", "xy.1", "xy.2", "x-y.1", "xy.1.1", "x_y"];
         for g in &glyphs {
+            if dense {
+                if rng.chance(3, 4) && used.insert(g.name.clone()) {
+                    let span = if rng.chance(1, 2) { 3 } else { 7 };
+                    m.push((g.name.clone(), DENSE[rng.below(span) as usize].to_string()));
+                }
+                continue;
+            }
             if rng.chance(1, 2) && used.insert(g.name.clone()) {
                 let v = match rng.below(8) {
                     0 => "uni0041".to_string(),
